@@ -68,7 +68,8 @@ def collect(ctx):
     q = _try(R.quantile, None)
     if q is not None:
         for bi, t, cb in R.local_callees(q):
-            pin(cb, "quantile_f64")
+            if cb.local_ty(0) == "f64":
+                pin(cb, "quantile_f64")
     # methods of the crate's public data-model types are API-like and stay functions; helper structs that a refactor introduces
     # (stage records and the like) are private, so their methods remain candidates
     pub_adts = {a["path"] for a in f.items["adts"] if a.get("pub")}
@@ -126,9 +127,7 @@ def inline_round(ctx, requests=()):
                 continue
             root = caller.j.get("root") or caller.path
             if _np(root) in req or _np(caller.path) in req:
-                fi_ = f.fns.get(f.mir[k].path) or {}
-                if not fi_.get("pub"):
-                    in_request.add(k)
+                in_request.add(k)
     direct |= in_request
     cands = inline.candidates(f, (set(pins) - direct) | hard, allow_pub=direct)
     cands = {k: site for k, site in cands.items() if site[0] in bearing}
